@@ -14,176 +14,250 @@ EXPLANATION = (
 TRUSTED = ["rustc MIR", "std PartialOrd default methods (le/gt from partial_cmp)", "f32 comparison semantics", "slice::sort_by is a stable sort"]
 
 
+ORD = "std::cmp::Ordering"
+
+
+def hv(a, b):
+    return ("agg", HV, "HTTPVersion", {"0": ("const", a, "%d_u8" % a, None), "1": ("const", b, "%d_u8" % b, None)})
+
+
+def models(bb, t, args, st):
+    """on_call models: integer `cmp` on constants, and (for the chooser) comparisons of a known HTTPVersion with a constant (lexicographic: C05.2)"""
+    import absint
+    n = call_name(t) + " " + (t.get("res_name") or "")
+    def val(a):
+        if a[0] == "ref":
+            return st.read_key(a[1])
+        if a[0] == "constref":
+            return a[1]
+        return a
+    if re.search(r"impl std::cmp::Ord for u8>::cmp\b|<u8 as std::cmp::Ord>::cmp\b", n) and len(args) == 2:
+        a, b = absint.const_of(val(args[0])), absint.const_of(val(args[1]))
+        if isinstance(a, int) and isinstance(b, int):
+            return ("agg", ORD, "Less" if a < b else ("Greater" if a > b else "Equal"), {})
+    if re.search(r"impl std::cmp::PartialOrd for u8>::partial_cmp\b|<u8 as std::cmp::PartialOrd>::partial_cmp\b", n) and len(args) == 2:
+        a, b = absint.const_of(val(args[0])), absint.const_of(val(args[1]))
+        if isinstance(a, int) and isinstance(b, int):
+            return ("some", ("agg", ORD, "Less" if a < b else ("Greater" if a > b else "Equal"), {}))
+    return None
+
+
+def version_models(bb, t, args, st):
+    import absint, parser_rules as PRS
+    r = models(bb, t, args, st)
+    if r is not None:
+        return r
+    n = call_name(t) + " " + (t.get("res_name") or "")
+    m = re.search(r"<common::HTTPVersion as std::cmp::Partial(?:Eq|Ord)(?:<.*>)?>::(eq|ne|lt|le|gt|ge)\b", n)
+    if m and len(args) == 2:
+        def val(a):
+            if a[0] == "ref":
+                return st.read_key(a[1])
+            if a[0] == "constref":
+                return a[1]
+            return a
+        a, b = PRS.version_const(val(args[0])), PRS.version_const(val(args[1]))
+        if a is not None and b is not None:
+            r = PRS.CMP[m.group(1)](a, b)
+            return ("const", r, str(r).lower(), None)
+    return None
+
+
 def run(ctx):
     facts = ctx.facts
     roles.bind(facts)
-    f = cte = facts.fn("response::choose_transfer_encoding")
-    raw_print = roles.inherent(facts, RESP, "raw_print")
+    import response_rules as RSP, inline, absint
+    import queue_rules as Q
+    M = RSP.resp_model(facts)
+    cte = M.chooser
+    raw_print = M.rp
+    same = lambda d: facts.fns[d].rec.get("local") and facts.fns[d].file == cte.file
+    te_parse = facts.trait_method(T_FROMSTR, TE, "from_str")
+    f = inline.inlined(facts, cte.id, stop=lambda d: facts.fns[d].rec.get("local") and (not same(d) or d == te_parse), extern_ok=Q.std_small)
     ctx.touch(f)
+    where = "%s:%d" % (cte.file, cte.line)
+
+    # parameters by type: status (StatusCode), request headers (&[Header]), version (&HTTPVersion), entity length (&Option<usize>), bools, threshold (usize)
+    P = {}
+    for i in range(1, f.argc + 1):
+        ty = f.locals[i]["ty"]
+        if ty == STATUS:
+            P["status"] = i
+        elif ty.startswith("&[common::Header"):
+            P["headers"] = i
+        elif ty == "&" + HV or ty == HV:
+            P["version"] = i
+        elif "Option<usize>" in ty:
+            P["length"] = i
+        elif ty == "usize":
+            P["threshold"] = i
+        elif ty == "bool":
+            P.setdefault("bools", []).append(i)
+    ctx.require({"status", "version", "length", "threshold"} <= set(P), "C05.1: parameters of the coding chooser (%s)" % sorted(P))
 
     # ---- C05.1 decision table
-    # parameters: 1 status_code, 2 request_headers, 3 http_version, 4 entity_length, 5 has_additional_headers, 6 chunked_threshold
-    te_sw = None
-    for bb in sorted(f.live_blocks()):
-        sw = switch_on_discr(f, bb)
-        if sw and sw[0].get("adt") == "std::option::Option" and not f.blocks[bb]["cleanup"]:
-            o = f.origin_place(sw[0]["pl"])
-            if origin_has_call(o, r"Option::<T>::and_then$"):
-                te_sw = (bb, sw)
-    ctx.require(te_sw is not None, "C05.1: the test of the client's TE preference was not found")
-    lookup = []
-    for g in facts.find_fns(r"^response::choose_transfer_encoding::\{closure#\d+\}$"):
+    lookup = set()
+    for dep, d in f.inlined:
+        g = facts.fns.get(d)
+        if g is None:
+            continue
         for bb, t in g.calls():
             if call_matches(t, r"HeaderField::equiv$"):
-                lookup += [c for c in arg_consts(g, t) if isinstance(c, str)]
-    ctx.ob("C05.1", "%s|looks-up-TE" % f.id, "the client's preference is read from the `TE` request header", lookup == ["TE"], "%s:%d" % (f.file, f.line), str(lookup))
+                lookup |= {c for c in arg_consts(g, t) if isinstance(c, str)}
+    for k, g in facts.local_fns.items():
+        if k.startswith(cte.id + "::{closure") or any(k.startswith(d + "::{closure") for dep, d in f.inlined):
+            for bb, t in g.calls():
+                if call_matches(t, r"HeaderField::equiv$"):
+                    lookup |= {c for c in arg_consts(g, t) if isinstance(c, str)}
+    ctx.ob("C05.1", "%s|looks-up-TE" % cte.id, "the client's preference is read from the `TE` request header", lookup == {"TE"}, where, str(sorted(lookup)))
     thr_values = [0, 1, 5, 32768]
     versions = [(0, 9), (1, 0), (1, 1), (1, 2), (2, 0), (0, 255)]
-    statuses = [99, 100, 150, 199, 200, 201, 203, 204, 205, 304, 404, 500, 65535]
-    tes = [None, "Identity", "Chunked"]
+    statuses = [99, 100, 199, 200, 201, 203, 204, 205, 304, 404, 65535]
     bad = []
     rows = 0
-    unknown = []
-    consts_seen = set()
     for thr in thr_values:
         lengths = [None] + sorted({0, max(thr - 1, 0), thr, thr + 1})
-        for ver, st, te, ln in itertools.product(versions, statuses, tes, lengths):
-            env = {("arg", 1): (st,), ("arg", 1, "0"): st, ("arg", 3): ver, ("arg", 4): (None if ln is None else ("some", ln)), ("arg", 5): False, ("arg", 6): thr}
-            class Asg(dict):
-                def __missing__(self, key):
-                    raise KeyError(key)
-            asg = {}
-            def atom_of(bb, env=env, asg=asg):
-                if bb == te_sw[0]:
-                    rv, m, otherwise, rest = te_sw[1]
-                    asg["te"] = te is not None
-                    return ("te", {True: m.get("Some", otherwise if "Some" in rest else None), False: m.get("None", otherwise if "None" in rest else None)})
-                bs = bool_switch(f, bb)
-                if bs and op_local(bs[0]) not in f.flag_locals():
-                    o = f.origin(bs[0])
-                    try:
-                        v = predeval.ev(f, o, env)
-                    except predeval.Unknown as e:
-                        unknown.append((f.loc(bb), str(e)))
-                        raise CheckerError("C05.1: cannot evaluate guard at %s: %s" % (f.loc(bb), e))
-                    asg["g%d" % bb] = bool(v)
-                    return ("g%d" % bb, {True: bs[1], False: bs[2]})
-                return None
-            out = []
-            def on_block(bb):
-                for s in f.stmts(bb):
-                    if s["s"] == "assign" and s["lhs"] == {"l": 0, "p": []}:
-                        r = s["rhs"]
-                        if r["rv"] == "agg" and r.get("adt") == TE:
-                            out.append(r["variant"])
-                        elif r["rv"] == "use":
-                            o = f.origin(r["op"])
-                            if any(x[0] == "downcast" and x[2] == "Some" for x in origin_walk(o)) and origin_has_call(o, r"and_then$"):
-                                out.append("TE:" + str(te))
-                            else:
-                                out.append("?")
-            end, visited = shared.walk_decision(f, 0, atom_of, asg, set(f.returns()), on_block)
+        for ver, stt, ln in itertools.product(versions, statuses, lengths):
+            st = symex.Sym(f)
+            st.write_key((P["status"],), ("agg", STATUS, "StatusCode", {"0": ("const", stt, "%d_u16" % stt, None)}))
+            vkey = (P["version"], "*") if f.locals[P["version"]]["ty"].startswith("&") else (P["version"],)
+            st.write_key(vkey, hv(*ver))
+            lkey = (P["length"], "*") if f.locals[P["length"]]["ty"].startswith("&") else (P["length"],)
+            st.write_key(lkey, ("none",) if ln is None else ("some", ("const", ln, "%d_usize" % ln, None)))
+            st.write_key((P["threshold"],), ("const", thr, "%d_usize" % thr, None))
+            for bi in P.get("bools", []):
+                st.write_key((bi,), ("const", False, "false", None))
+            ps = [p for p in absint.explore(f, 0, st, on_call=version_models, max_paths=3000, max_visits=2) if p.end[0] == "return"]
             rows += 1
-            ctx.paths += 1
-            if ver <= (1, 0):
-                want = "Identity"
-            elif st < 200 or st == 204:
-                want = "Identity"
-            elif te is not None:
-                want = "TE:" + te
-            elif ln is None or ln >= thr:
-                want = "Chunked"
+            ctx.paths += len(ps)
+            outs = set()
+            for p in ps:
+                r = p.ret()
+                if r[0] == "agg" and r[1] == TE and not any(x and x[0] in ("call", "payload", "refined", "downcast", "field") for x in absint.walk_terms(r)):
+                    outs.add(r[2])
+                else:
+                    outs.add("client")
+            if ver <= (1, 0) or stt < 200 or stt == 204:
+                want = {"Identity"}
+                ok = outs == want
             else:
-                want = "Identity"
-            got = out[-1] if out else None
-            if got != want:
-                bad.append((ver, st, te, ln, thr, got, want))
+                default = "Chunked" if (ln is None or ln >= thr) else "Identity"
+                ok = default in outs and "client" in outs and outs <= {default, "client"}
+                want = {default, "client"}
+            if not ok:
+                bad.append((ver, stt, ln, thr, sorted(outs), sorted(want)))
     ctx.counts["C05.1 table rows"] = rows
-    ctx.ob("C05.1", "%s|table" % f.id,
-           "for every representative (version, status, TE preference, body length, threshold) the coding chosen is the one of the property's table: identity for <=1.0, identity for 1xx/204, the client's preferred coding, else chunked iff length unknown or >= threshold",
-           not bad, "%s:%d" % (f.file, f.line), None if not bad else "mismatches (version,status,TE,len,thr,got,want): %s" % bad[:4])
-    # has_additional_headers is constantly false at the only call site
-    sites = facts.callers_of(f.id)
-    ctx.floor("C05.1 call sites of choose_transfer_encoding", len(sites), 1)
+    ctx.ob("C05.1", "%s|table" % cte.id,
+           "for every representative (version, status, body length, threshold) the coding chosen is the one of the property's table: identity for <=1.0, identity for 1xx/204 (whatever the client prefers), "
+           "otherwise the client's preferred coding when it has one, else chunked iff length unknown or >= threshold",
+           not bad, where, None if not bad else "mismatches (version,status,len,thr,got,want): %s" % bad[:4])
+    sites = facts.callers_of(cte.id)
+    ctx.floor("C05.1 call sites of the coding chooser", len(sites), 1)
     for g, bb, t in sites:
-        ctx.ob("C05.1", "call|%s" % g.id, "choose_transfer_encoding is called only by raw_print, with has_additional_headers = false", g.id == raw_print.id and op_const(t["args"][4]) is False, g.loc(bb))
-        if g.id == raw_print.id:
-            o_st, o_hdr, o_ver, o_len, o_thr = (g.origin(t["args"][i]) for i in (0, 1, 2, 3, 5))
-            ctx.ob("C05.3", "%s|passes-own-status" % g.id, "the decision is made on the response's own status code", "status_code" in origin_fields(o_st), g.loc(bb), origin_str(o_st))
-            ctx.ob("C05.3", "%s|passes-request-headers" % g.id, "... on the request's headers", any(x == ("arg", 4) for x in origin_walk(o_hdr)), g.loc(bb), origin_str(o_hdr))
-            ctx.ob("C05.3", "%s|passes-request-version" % g.id, "... on the request's HTTP version", any(x == ("arg", 3) for x in origin_walk(o_ver)), g.loc(bb), origin_str(o_ver))
-            ctx.ob("C05.3", "%s|passes-declared-length" % g.id, "... on the response's declared length", "data_length" in origin_fields(o_len), g.loc(bb), origin_str(o_len))
-            thr_fn = roles.inherent(facts, RESP, "chunked_threshold")
-            ctx.ob("C05.3", "%s|passes-threshold" % g.id, "... and on the response's chunking threshold", o_thr[0] == "call" and o_thr[1] == thr_fn.id, g.loc(bb), origin_str(o_thr))
-
-    # ---- C05.2 ordering of HTTPVersion
-    cmpf = facts.fn(facts.trait_method("std::cmp::Ord", HV, "cmp"))
-    ctx.touch(cmpf)
-    ok = False
-    detail = None
-    for bb in sorted(cmpf.live_blocks()):
-        bs = bool_switch(cmpf, bb)
-        if not bs:
+        okb = all(op_const(t["args"][bi - 1]) is False for bi in P.get("bools", []))
+        ctx.ob("C05.1", "call|%s" % g.id, "the coding chooser is called only from the response module, with has_additional_headers = false", g.file == cte.file and okb, g.loc(bb))
+    # what raw_print passes: its own status, the request's headers and version, its declared length and threshold
+    rf = M.f
+    for bb, t in rf.calls():
+        if call_name(t) != cte.id:
             continue
-        o = cmpf.origin(bs[0])
-        if o[0] == "binop" and o[1] in ("Ne", "Eq"):
-            fl = [sorted(origin_fields(o[2])), sorted(origin_fields(o[3]))]
-            if fl == [["0"], ["0"]]:
-                diff_t, same_t = (bs[1], bs[2]) if o[1] == "Ne" else (bs[2], bs[1])
-                def cmp_fields(tgt):
-                    res = set()
-                    for b2 in sorted(cmpf.reach([tgt], unwind=False)):
-                        t2 = cmpf.term(b2)
-                        if t2["t"] == "call" and t2.get("name") == "cmp" and t2["dest"] == {"l": 0, "p": []}:
-                            a, b = cmpf.origin(t2["args"][0]), cmpf.origin(t2["args"][1])
-                            res.add((origin_str(a), origin_str(b)))
-                    return res
-                d, s_ = cmp_fields(diff_t), cmp_fields(same_t)
-                okd = len(d) == 1 and all(a == "&*arg1.0" and b == "&*arg2.0" for a, b in d)
-                oks = len(s_ - d) == 1 and all(a == "&*arg1.1" and b == "&*arg2.1" for a, b in s_ - d)
-                ok = okd and oks
-                detail = "differ->%s same->%s" % (d, s_)
-    ctx.ob("C05.2", "%s|lexicographic" % cmpf.id, "versions are ordered by major, then minor (self compared with other, not swapped)", ok, "%s:%d" % (cmpf.file, cmpf.line), detail)
-    pc = facts.fn(facts.trait_method("std::cmp::PartialOrd", HV, "partial_cmp"))
-    o = pc.origin_place({"l": 0, "p": []})
-    ok = o[0] == "agg" and o[4] == "Some" and o[2][0][0] == "call" and o[2][0][1] == cmpf.id and o[2][0][2][0] in (("arg", 1), ("ref", ("deref", ("arg", 1)))) 
-    ctx.ob("C05.2", "%s|delegates" % pc.id, "partial_cmp is Some(cmp(self, other))", ok, "%s:%d" % (pc.file, pc.line), origin_str(o))
-    for g in facts.find_fns(r"^<common::HTTPVersion as std::cmp::PartialOrd<\(u8, u8\)>>::partial_cmp$"):
-        o = g.origin_place({"l": 0, "p": []})
-        okd = o[0] == "call" and o[1] == pc.id
-        okf = False
-        if okd:
-            other = o[2][1]
-            aggs = [x for x in origin_walk(other) if x[0] == "agg" and x[1] == HV]
-            if aggs:
-                a = aggs[0]
-                s0, s1 = origin_str(a[2][0]), origin_str(a[2][1])
-                okf = s0.endswith(".0") and s1.endswith(".1")
-        ctx.ob("C05.2", "%s|tuple-delegates" % g.id, "comparison with a (major, minor) tuple builds HTTPVersion(major, minor) in that order and delegates", okd and okf, "%s:%d" % (g.file, g.line), origin_str(o))
+        o = {k: rf.origin(t["args"][i - 1]) for k, i in P.items() if k != "bools"}
+        ctx.ob("C05.3", "%s|passes-own-status" % raw_print.id, "the decision is made on the response's own status code", M.status_f in origin_fields(o["status"]), rf.loc(bb), origin_str(o["status"]))
+        if "headers" in o:
+            ctx.ob("C05.3", "%s|passes-request-headers" % raw_print.id, "... on the request's headers", any(x == ("arg", 4) for x in origin_walk(o["headers"])), rf.loc(bb), origin_str(o["headers"]))
+        ctx.ob("C05.3", "%s|passes-request-version" % raw_print.id, "... on the request's HTTP version", any(x == ("arg", 3) for x in origin_walk(o["version"])), rf.loc(bb), origin_str(o["version"]))
+        ctx.ob("C05.3", "%s|passes-declared-length" % raw_print.id, "... on the response's declared length", M.dlen_f in origin_fields(o["length"]), rf.loc(bb), origin_str(o["length"]))
+        thr_f = [n for n in M.len_f if n != M.dlen_f]
+        okt = False
+        if thr_f:
+            sl = shared.backward_slice_locals(rf, [op_local(t["args"][P["threshold"] - 1])])
+            for b2, i2, s2 in rf.assigns():
+                if s2["lhs"]["l"] in sl:
+                    for p_, kind in rvalue_places(s2["rhs"]):
+                        if thr_f[0] in pl_fields(p_):
+                            okt = True
+        ctx.ob("C05.3", "%s|passes-threshold" % raw_print.id, "... and on the response's chunking threshold", okt, rf.loc(bb), origin_str(o["threshold"]))
+
+    # ---- C05.2 ordering of HTTPVersion (samples through the impls)
+    samples = [((1, 0), (1, 1)), ((1, 1), (1, 0)), ((1, 1), (1, 1)), ((0, 9), (1, 0)), ((2, 0), (1, 1)), ((1, 9), (2, 0)), ((0, 255), (1, 0)), ((1, 0), (0, 255)), ((3, 0), (3, 0))]
+    def want_ord(a, b):
+        return "Less" if a < b else ("Greater" if a > b else "Equal")
+    cmp_id = facts.trait_method("std::cmp::Ord", HV, "cmp")
+    pc_id = facts.trait_method("std::cmp::PartialOrd", HV, "partial_cmp")
+    for fid, label, wrap in ((cmp_id, "lexicographic", False), (pc_id, "delegates", True)):
+        ok = fid is not None
+        detail = None
+        if ok:
+            g0 = facts.fn(fid)
+            g = inline.inlined(facts, fid, stop=lambda d: facts.fns[d].rec.get("local") and facts.fns[d].file != g0.file, extern_ok=Q.std_small)
+            ctx.touch(g)
+            for a, b in samples:
+                st = symex.Sym(g)
+                st.write_key((1, "*"), hv(*a))
+                st.write_key((2, "*"), hv(*b))
+                rets = {repr(p.ret()) for p in absint.explore(g, 0, st, on_call=models) if p.end[0] == "return"}
+                w = ("agg", ORD, want_ord(a, b), {})
+                if wrap:
+                    w = ("some", w)
+                if rets != {repr(w)}:
+                    ok = False
+                    detail = "%s vs %s -> %s" % (a, b, sorted(rets)[:2])
+        ctx.ob("C05.2", "%s|%s" % (fid, label), "versions are ordered by major, then minor (self compared with other, not swapped)" if not wrap else "partial_cmp agrees with that total order", ok,
+               "%s:%d" % (facts.fn(fid).file, facts.fn(fid).line) if fid else HV, detail)
+    for g0 in facts.find_fns(r"^<common::HTTPVersion as std::cmp::PartialOrd<\(u8, u8\)>>::partial_cmp$"):
+        g = inline.inlined(facts, g0.id, stop=lambda d: facts.fns[d].rec.get("local") and facts.fns[d].file != g0.file, extern_ok=Q.std_small)
+        ok = True
+        detail = None
+        for a, b in samples:
+            st = symex.Sym(g)
+            st.write_key((1, "*"), hv(*a))
+            st.write_key((2, "*"), ("tuple", [("const", b[0], "%d_u8" % b[0], None), ("const", b[1], "%d_u8" % b[1], None)]))
+            rets = {repr(p.ret()) for p in absint.explore(g, 0, st, on_call=models) if p.end[0] == "return"}
+            if rets != {repr(("some", ("agg", ORD, want_ord(a, b), {})))}:
+                ok = False
+                detail = "%s vs %s -> %s" % (a, b, sorted(rets)[:2])
+        ctx.ob("C05.2", "%s|tuple-delegates" % g0.id, "comparison with a (major, minor) tuple follows the same order", ok, "%s:%d" % (g0.file, g0.line), detail)
 
     # ---- C05.3 threshold
-    thr_fn = roles.inherent(facts, RESP, "chunked_threshold")
-    o = thr_fn.origin_place({"l": 0, "p": []})
-    ok = o[0] == "call" and o[1].endswith("Option::<T>::unwrap_or") and "chunked_threshold" in origin_fields(o[2][0]) and o[2][1][0] == "const" and o[2][1][1] == 32768
-    ctx.ob("C05.3", "%s|default-32768" % thr_fn.id, "the threshold is the configured one, 32768 by default", ok, "%s:%d" % (thr_fn.file, thr_fn.line), origin_str(o))
-    wct = roles.inherent(facts, RESP, "with_chunked_threshold")
-    ws = [(bb, x) for g, bb, kind, x in facts.field_writes(RESP, "chunked_threshold") if g.id == wct.id and kind == "assign"]
-    ok = len(ws) == 1
+    thr_field = [n for n in M.len_f if n != M.dlen_f]
+    ctx.require(len(thr_field) == 1, "C05.3: chunking-threshold field of Response")
+    TF = thr_field[0]
+    getters = [g for k, g in facts.local_fns.items() if g.rec.get("impl_self_adt") == RESP and g.argc == 1 and g.locals[0]["ty"] == "usize" and TF in {fl for bb, i, s in g.assigns() for p_, kind in rvalue_places(s["rhs"]) for fl in pl_fields(p_)}]
+    ok = len(getters) == 1
+    detail = None
     if ok:
-        o = wct.origin(ws[0][1]["rhs"]["op"])
-        ok = o[0] == "agg" and o[4] == "Some" and o[2][0] == ("arg", 2)
-    ctx.ob("C05.3", "%s|stores-argument" % wct.id, "with_chunked_threshold stores exactly its argument", ok, "%s:%d" % (wct.file, wct.line))
-    for g, bb, kind, x in facts.field_writes(RESP, "chunked_threshold"):
-        if kind in ("assign", "calldest", "mutref"):
-            ctx.ob("C05.3", "threshold-write|%s" % g.id, "the threshold is changed only by with_chunked_threshold", g.id == wct.id, g.loc(bb))
+        g = inline.inlined(facts, getters[0].id, stop=lambda d: facts.fns[d].rec.get("local") and facts.fns[d].file != cte.file, extern_ok=Q.std_small)
+        for val, want in ((None, 32768), (5, 5), (0, 0)):
+            st = symex.Sym(g)
+            base = (1, "*") if g.locals[1]["ty"].startswith("&") else (1,)
+            st.write_key(base + ("." + TF,), ("none",) if val is None else ("some", ("const", val, "%d_usize" % val, None)))
+            rets = {absint.const_of(p.ret()) for p in absint.explore(g, 0, st) if p.end[0] == "return"}
+            if rets != {want}:
+                ok = False
+                detail = "%s -> %s" % (val, rets)
+    ctx.ob("C05.3", "%s|default-32768" % RESP, "the threshold is the configured one, 32768 by default", ok, where, detail)
+    setters = {g.id for g, bb, kind, x in facts.field_writes(RESP, TF) if kind in ("assign", "calldest", "mutref")}
+    ok = len(setters) == 1
+    if ok:
+        wct = facts.fn(sorted(setters)[0])
+        ws = [(bb, x) for g, bb, kind, x in facts.field_writes(RESP, TF) if g.id == wct.id and kind == "assign"]
+        ok = len(ws) == 1
+        if ok:
+            o = wct.origin(ws[0][1]["rhs"]["op"])
+            ok = o[0] == "agg" and o[4] == "Some" and o[2][0] == ("arg", 2) and wct.rec.get("vis_pub")
+    ctx.ob("C05.3", "%s|threshold-setter-stores-argument" % RESP, "the threshold is changed only by its public setter, which stores exactly its argument", ok, where, str(sorted(setters)))
 
     import rules_C19
     rules_C19.conv_fields(ctx, facts, "C05.3")
 
     # ---- C05.4 TE preference
-    # bound by role: the closure that calls parse_header_value and sorts, and the comparator it passes to sort_by
-    pref = [g for g in facts.find_fns(r"^response::choose_transfer_encoding::\{closure") if g.call_blocks(lambda t: call_matches(t, r"<impl \[T\]>::sort(_unstable)?_by$"))]
-    ctx.require(len(pref) == 1, "C05.4: the closure sorting the TE preferences was not found")
+    # bound by role: the function (closure or helper) on the chooser's path that sorts the parsed preferences, and the comparator it passes to sort_by
+    cands = [facts.fns[d] for dep, d in f.inlined if d in facts.fns] + [g for k, g in facts.local_fns.items() if k.startswith(cte.id + "::{closure") or any(k.startswith(d + "::{closure") for dep, d in f.inlined)]
+    pref = []
+    for g in cands:
+        if g.call_blocks(lambda t: call_matches(t, r"<impl \[T\]>::sort(_unstable)?_by$")) and g.id not in [x.id for x in pref]:
+            pref.append(g)
+    ctx.require(len(pref) == 1, "C05.4: the code sorting the TE preferences was not found")
     p = pref[0]
     sb0 = [(bb, t) for bb, t in p.calls() if call_matches(t, r"<impl \[T\]>::sort(_unstable)?_by$")]
     so = p.origin(sb0[0][1]["args"][1])
@@ -211,7 +285,17 @@ def run(ctx):
             nx = set(p.call_blocks(lambda t: call_matches(t, r"Iter<.*> as std::iter::Iterator>::next$")))
             r = p.reach([bs[1]], blocked=nx, unwind=False)
             skip_ok = not (r & fs) and not any(x in r for x in p.returns())
-    ctx.ob("C05.4", "%s|skip-q-zero" % p.id, "an entry with q <= 0 is skipped", skip_ok, "%s:%d" % (p.file, p.line))
+    if not skip_ok:
+        for bb, t in p.calls():
+            if call_matches(t, r"Vec::<T(, A)?>::retain$|Iterator>?::filter(::<|$)") and len(t["args"]) > 1 and all(p.dominates(bb, s_, unwind=False) for s_, _ in sb0):
+                co = p.origin(t["args"][1])
+                cf = facts.fns.get(co[1]) if co[0] == "agg" else None
+                if cf is not None:
+                    for b2, i2, s2 in cf.assigns():
+                        r2 = s2["rhs"]
+                        if r2["rv"] == "binop" and r2["op"] == "Gt" and op_const(r2["b"]) == ("float", 0.0) and s2["lhs"] == {"l": 0, "p": []}:
+                            skip_ok = True
+    ctx.ob("C05.4", "%s|skip-q-zero" % p.id, "an entry with q <= 0 (or a q that is not a number) is dropped before the codings are tried", skip_ok, "%s:%d" % (p.file, p.line))
     # first accepted coding is returned
     fs = p.call_blocks(lambda t: call_matches(t, r"TransferEncoding as std::str::FromStr>::from_str$"))
     ok = len(fs) == 1
@@ -221,6 +305,17 @@ def run(ctx):
         if ok:
             outs = shared.eval_from(p, rs["ok"])
             ok = bool(outs) and all(st.read_key((0,))[0] == "some" for pp, st in outs)
+    if not ok:
+        # `sorted.iter().find_map(|v| TransferEncoding::from_str(v.0).ok())`: the first element for which the parser succeeds
+        for bb, t in p.calls():
+            if call_matches(t, r"Iterator>?::find_map(::<|$)") and len(t["args"]) > 1:
+                co = p.origin(t["args"][1])
+                cf = facts.fns.get(co[1]) if co[0] == "agg" else None
+                if cf is not None and cf.call_blocks(lambda t2: call_matches(t2, r"TransferEncoding as std::str::FromStr>::from_str$")):
+                    recv = p.origin(t["args"][0])
+                    if not origin_has_call(recv, r"::rev$"):
+                        o0 = cf.origin_place({"l": 0, "p": []})
+                        ok = origin_has_call(o0, r"Result::<T, E>::ok$") or (o0[0] == "call" and o0[1].endswith("from_str"))
     ctx.ob("C05.4", "%s|first-supported-wins" % p.id, "the first coding (in preference order) that is supported is the answer", ok, "%s:%d" % (p.file, p.line))
     tefs = method(facts, T_FROMSTR, TE, "from_str")
     tbl = {}
